@@ -37,6 +37,9 @@ func dateAt(atNs int64, offSec int64) string {
 	return httpDate(bubbleEpoch + atNs/sec + offSec)
 }
 
+// zeroPadded: small numbers written with twenty digits and more (leading zeros do not make a number large)
+var zeroPadded = []string{"00000000000000000060", "00000000000000000000", "000000000000000000000005", "00000000000000000000100"}
+
 var bigNums = []string{"2147483647", "2147483648", "2147483649", "4294967296", "9223372035", "9223372036",
 	"9223372037", "9223372036854775807", "9223372036854775808", "9223372036854775809", "18446744073709551615",
 	"18446744073709551616", "18446744073709551617", "13835058055282163712", "99999999999999999999"}
@@ -86,6 +89,9 @@ func (g *G) genStored(focus string) storedSpec {
 		}
 	case 3:
 		s.maxAge = pick(g, bigNums...)
+		if g.chance(0.2) {
+			s.maxAge = pick(g, zeroPadded...)
+		}
 	default:
 		s.maxAge = strconv.FormatInt(g.lifetime(), 10)
 	}
@@ -289,10 +295,10 @@ func (g *G) genReqCC() []string {
 		}
 	}
 	if g.chance(0.3) {
-		cc = append(cc, "max-age="+pick(g, "0", "1", "5", "10", "100", "junk", bigNums[g.r.Intn(len(bigNums))]))
+		cc = append(cc, "max-age="+pick(g, "0", "1", "5", "10", "100", "junk", bigNums[g.r.Intn(len(bigNums))], zeroPadded[g.r.Intn(len(zeroPadded))]))
 	}
 	if g.chance(0.3) {
-		cc = append(cc, pick(g, "max-stale", "max-stale=0", "max-stale=5", "max-stale=100", "max-stale=junk", "max-stale=99999999999999999999x", "max-stale="+bigNums[g.r.Intn(len(bigNums))]))
+		cc = append(cc, pick(g, "max-stale", "max-stale=0", "max-stale=5", "max-stale=100", "max-stale=junk", "max-stale=99999999999999999999x", "max-stale="+zeroPadded[g.r.Intn(len(zeroPadded))], "max-stale="+bigNums[g.r.Intn(len(bigNums))]))
 	}
 	if g.chance(0.2) {
 		// (too large to represent: acts as at least 2^31 seconds, it does not wrap around)
